@@ -207,6 +207,10 @@ def run(ctx):
 
     # ------------------------------------------------------------------ Q2 next_inner
     N = hirq.Body(f, stream_body(f, 'next_inner'))
+    # Q5 the stepping function is cancel safe: nothing of the stream is held by the pending future while it waits
+    import cancel
+    n_aw = cancel.check(ctx, 'Q5.nothing-moved-out-of-the-stream-across-await', f, N)
+    ctx.floor('Q5', 'await points on the paths of next_inner', n_aw, 1)
     ctx.analysed['bodies'].add(N.path)
     outs = [o for o in run_from(f, N, 'Active') if o.kind in ('val', 'ret')]
     kinds = set()
